@@ -2,16 +2,16 @@ SPECIFICATION Spec
 CONSTANTS
   CronPeriod <- MCCronPeriod
   Expand <- MCExpand
-  Script <- Script_register
-  Times <- Times_register
-  InitDB <- DB_register
+  Script <- Script_search
+  Times <- Times_search
+  InitDB <- DB_search
   Sweeps = {"TimeoutPromises"}
   MaxSweeps = 1
   Delay = 2
   Known = {"F14"}
   F1Fixed = TRUE
   Idc <- MCIdc
-  Parties = 3
+  Parties = 2
 VIEW View
 INVARIANTS
   TypeOK
